@@ -68,7 +68,7 @@ def gen_case(rng, thorough):
     # raw payloads are NOT multiples of the group size: the average must then carry exactly the rounding of the
     # per-tensor allreduce, (1/n) * (sum over the group), not of any other order of scaling and summing
     return {'world': world, 'groups': groups, 'cap': cap, 'ops': ops, 'raw': rng.random() < 0.35,
-            'rankorder': rng.randrange(1, 10**6) if rng.random() < 0.4 else 0}
+            'rankorder': rng.randrange(1, 10**6) if rng.random() < 0.4 else 0, 'expand': rng.random() < 0.25}
 
 
 def rank_ops(case, rank):
@@ -112,8 +112,15 @@ def payload(tid, rank, shape, dt, sym, gsize):
         i = torch.arange(shape[0]).view(-1, 1)
         j = torch.arange(shape[0]).view(1, -1)
         base = (torch.minimum(i, j) * shape[0] + torch.maximum(i, j)).to(torch.float64)
-    v = (base % 5 + (tid % 3) + rank + 1) * gsize
-    return v.to(DT[dt])
+    v = ((base % 5 + (tid % 3) + rank + 1) * gsize).to(DT[dt])
+    if _EXPAND[0] and len(shape) == 2 and not sym and shape[0] > 1 and n:
+        # a broadcast view (row.expand(rows, cols)): logical size rows*cols elements, storage one row — the bucket
+        # accounts for what is communicated, the logical size
+        v = v[0:1].clone().expand(*shape)
+    return v
+
+
+_EXPAND = [False]
 
 
 def run_case(ctx, case, seed):
@@ -163,6 +170,8 @@ def check_case(ctx, case, seed, lines, pend):
     world, groups, ops = case['world'], case['groups'], case['ops']
     jcase = {'world': world, 'groups': [list(g) for g in groups], 'cap': case['cap'],
              'ops': [list(o) for o in ops], 'schedule_seed': seed, 'raw': bool(case.get('raw')), 'rankorder': case.get('rankorder', 0)}
+    _EXPAND[0] = bool(case.get('expand'))
+    jcase['expand'] = _EXPAND[0]
     wd, res = run_case(ctx, case, seed)
     if wd.stalled or wd.exceptions or wd.errors:
         ctx.fail(f'run failed: stalled={wd.stalled} exceptions={dict(list(wd.exceptions.items())[:2])} '
@@ -296,6 +305,13 @@ def run(ctx):
            'ops': [('rb', 1, 0, (2,), 0, False, False), ('rb', 2, 1, (3,), 0, False, True), ('rb', 3, 2, (2, 2), 0, True, False),
                    ('rb', 1, 3, (1,), 0, False, False), ('fl',), ('rb', 3, 4, (2,), 0, False, False), ('rb', 2, 5, (2,), 0, False, False),
                    ('rb', 1, 6, (2,), 0, False, True), ('fl',)]} for j in range(12)],
+        # broadcast views (storage of one row, logical size rows x cols) arriving at a partly filled bucket: the capacity rule
+        # counts the logical bytes that will be communicated
+        {'world': 2, 'groups': [(0, 1)], 'cap': 100, 'expand': True,
+         'ops': [('rb', 0, 0, (17,), 0, False, False), ('rb', 0, 1, (6, 6), 0, False, False), ('fl',),
+                 ('rb', 0, 2, (3,), 0, False, True), ('rb', 0, 3, (6, 6), 0, False, True), ('rb', 0, 4, (2, 3), 0, False, False), ('fl',)]},
+        {'world': 3, 'groups': [(0, 1, 2)], 'cap': 256, 'expand': True,
+         'ops': [('rb', 0, 0, (17,), 0, False, False), ('rb', 0, 1, (6, 6), 0, False, True), ('rb', 0, 2, (6, 6), 0, False, False), ('fl',)]},
         # zero-element tensors alone in a bucket
         {'world': 2, 'groups': [(0, 1)], 'cap': 16,
          'ops': [('rb', 0, 0, (0, 3), 0, False, False), ('rb', 0, 1, (17,), 0, False, False),
@@ -309,6 +325,7 @@ def run(ctx):
             ctx.count('corpus')
     compare_events(ctx, pend, ctx.model.ask(lines))
     value_stream(ctx)
+    half_equiv_stream(ctx)
 
 
 def value_stream(ctx):
@@ -384,6 +401,51 @@ def value_stream(ctx):
         ctx.count('value-stream')
     for (case, il), mo in zip(pend, ctx.model.ask(lines)):
         ctx.compare('bucket-values', case, mo, il)
+
+
+def half_equiv_stream(ctx):
+    """half-precision tensors with ordinary random values on 3–5 ranks: sums over the group are NOT exactly representable, so
+    the result depends on the precision the reduction runs in — the bucketed path (fused buffer) and the per-tensor path
+    give bit-identical results, element by element"""
+    from kfac.distributed import TorchDistributedCommunicator
+    rng = ctx.rng
+    for trial in range(ctx.budget(12, 100)):
+        world = rng.choice([3, 4, 5])
+        dtype = rng.choice([torch.float16, torch.bfloat16])
+        nt = rng.randrange(1, 5)
+        sizes = [rng.choice([3, 8, 17, 33]) for _ in range(nt)]
+        cap = rng.choice([1, 10**6])           # every tensor alone in its bucket / all fused
+        avg = rng.random() < 0.5
+        seed = rng.randrange(10**6)
+        case = {'stream': 'half-equivalence', 'world': world, 'dtype': str(dtype), 'sizes': sizes, 'cap_bytes': cap, 'average': avg, 'seed': seed}
+
+        def prog(rank, dtype=dtype, sizes=sizes, cap=cap, avg=avg, seed=seed):
+            tdc = TorchDistributedCommunicator(bucket_cap_mb=(cap + 0.5) / 1e6)
+            g = torch.Generator().manual_seed(seed * 31 + rank)
+            ts = [(torch.randn(n, generator=g) * 3).to(dtype) for n in sizes]
+            fb = [tdc.allreduce_bucketed(t.clone(), average=avg) for t in ts]
+            tdc.flush_allreduce_buckets()
+            rb = [f.wait() if not isinstance(f, torch.Tensor) else f for f in fb]
+            rp = []
+            for t in ts:
+                f = tdc.allreduce(t.clone(), average=avg)
+                rp.append(f.wait() if not isinstance(f, torch.Tensor) else f)
+            return rb, rp
+        wd, res = simdist.run_world(world, prog, seed=ctx.seed * 811 + trial, stickiness=rng.choice([0.0, 0.5, 0.9]))
+        if wd.exceptions or wd.stalled or wd.errors:
+            ctx.fail(f'run failed: exc={wd.exceptions} stalled={wd.stalled} errors={wd.errors[:2]}', case, 'half-run')
+            continue
+        for rank in range(world):
+            rb, rp = res[rank]
+            bad = [i for i, (a, b) in enumerate(zip(rb, rp)) if a.dtype != b.dtype or a.shape != b.shape or not torch.equal(a, b)]
+            if bad:
+                i = bad[0]
+                ctx.fail(f'rank {rank}: the bucketed all-reduce of {dtype} tensor {i} differs from the per-tensor all-reduce '
+                         f'(max abs difference {(rb[i].float() - rp[i].float()).abs().max().item():.3g}, dtypes {rb[i].dtype}/{rp[i].dtype})', case, 'half-equivalence')
+                break
+        ctx.evaluations += 1
+        ctx.case(('half-equiv', world, str(dtype), tuple(sizes), cap, avg, seed), nontrivial=True)
+        ctx.count('half-equivalence')
 
 
 def search(ctx):
